@@ -3,6 +3,7 @@ Helper lemma for Props/C07.lean (round 4): what one node reports is the strip of
 signed, for every sequence of peer messages – derived from the stage invariants of Proofs/Query.lean.
 -/
 import DosModel.Proofs.Query
+import DosModel.Model.ContentPath
 
 namespace Dos.Query
 open Dos Dos.Content
@@ -38,4 +39,93 @@ theorem report_is_strip (C : Crypto) (p a : Nat) (mb : Member) (r : Request) (fc
       subst hcc
       exact ⟨hal, hres⟩
 
+/-- a member that is not the submitter never reports, registers nothing, and hands exactly one
+message to `p.Request`, addressed to the submitter: its own share, or nothing (`none`) when its
+content stage failed -/
+theorem nonsubmitter_out (C : Crypto) (p a : Nat) (mb : Member) (r : Request) (fc : List (Option Msg))
+    (sub : Bytes) (hs : submitter mb.ids r.last = some sub) (hne : mb.me ≠ sub) :
+    (handleQuery C p a mb r fc).reports = [] ∧ (handleQuery C p a mb r fc).registered = false ∧
+    (handleQuery C p a mb r fc).sent = [(sub, (contentFor p r sub).map (fun c =>
+      { index := r.kind.ptype, rid := r.ridBytes, content := some c, sig := some (mb.signOwn c) }))] := by
+  unfold handleQuery
+  simp [hs, hne]
+
+/-- since /repo 7f58072: a member whose content stage produced nothing reports nothing and does not
+register for the peers' shares – whatever it is, whatever the peers send -/
+theorem silent_without_content (C : Crypto) (p a : Nat) (mb : Member) (r : Request) (fc : List (Option Msg))
+    (h0 : ∀ sub, submitter mb.ids r.last = some sub → contentFor p r sub = none) :
+    (handleQuery C p a mb r fc).reports = [] ∧ (handleQuery C p a mb r fc).registered = false := by
+  unfold handleQuery
+  cases hs : submitter mb.ids r.last with
+  | none => simp
+  | some sub =>
+    simp only [h0 sub hs, Option.map_none]
+    by_cases hme : mb.me ≠ sub
+    · simp [hme]
+    · simp [hme]
+
+/-- a report is made by the submitter only -/
+theorem reporter_is_submitter (C : Crypto) (p a : Nat) (mb : Member) (r : Request) (fc : List (Option Msg))
+    (rep : Report) (hrep : rep ∈ (handleQuery C p a mb r fc).reports) :
+    submitter mb.ids r.last = some mb.me ∧ ∃ c0, contentFor p r mb.me = some c0 := by
+  cases hs : submitter mb.ids r.last with
+  | none => unfold handleQuery at hrep; simp [hs] at hrep
+  | some sub =>
+    by_cases hme : mb.me ≠ sub
+    · rw [(nonsubmitter_out C p a mb r fc sub hs hme).1] at hrep; simp at hrep
+    · have hsub : mb.me = sub := by simpa using hme
+      subst hsub
+      refine ⟨rfl, ?_⟩
+      cases hc : contentFor p r mb.me with
+      | some c0 => exact ⟨c0, rfl⟩
+      | none =>
+        have := (silent_without_content C p a mb r fc (by
+          intro s hs'; rw [hs] at hs'; cases hs'; exact hc)).1
+        rw [this] at hrep; simp at hrep
+
 end Dos.Query
+
+namespace Dos.ContentPath
+open Dos Dos.Content
+
+theorem dataFetch_some {m : Nat} {tr : Option Bytes} {d : Bytes} (h : dataFetch m tr = some d) :
+    tr = some d ∧ d.length ≤ m := by
+  unfold dataFetch at h
+  cases tr with
+  | none => simp at h
+  | some body =>
+    simp only at h
+    by_cases hb : m < body.length
+    · simp [hb] at h
+    · simp only [hb, if_false, Option.some.injEq] at h
+      subst h
+      exact ⟨rfl, Nat.le_of_not_lt hb⟩
+
+theorem dataFetch_len (m : Nat) (body : Bytes) :
+    (dataFetch m (some body)).map List.length = fetchLen m body.length := by
+  unfold dataFetch fetchLen
+  by_cases hb : m < body.length <;> simp [hb]
+
+/-- every report in a group run is a report of `handleQuery` at the member it is attributed to, with
+SOME list of messages from the collector -/
+theorem groupRun_reports (C : Query.Crypto) (p a : Nat) (ids : List Bytes) (signOf : Nat → Bytes → Bytes)
+    (f : Fields) (parsedAt : Nat → Option Bytes) (order : List Nat) (extra : List (Option Query.Msg))
+    (o : GroupOut) (ho : groupRun C p a ids signOf f parsedAt order extra = some o)
+    (i : Nat) (rep : Query.Report) (h : (i, rep) ∈ o.reports) :
+    ∃ fc, rep ∈ (Query.handleQuery C p a { ids := ids, me := ids.getD i [], signOwn := signOf i }
+      (requestAt f parsedAt i) fc).reports := by
+  unfold groupRun at ho
+  cases hs : submitterIdx f.last ids.length with
+  | none => simp [hs] at ho
+  | some subI =>
+    simp only [hs, Option.some.injEq] at ho
+    subst ho
+    simp only [List.mem_append, List.mem_flatMap, List.mem_map, Prod.mk.injEq, Prod.exists] at h
+    rcases h with ⟨j, out, hmem, r, hr, hj, hrr⟩ | ⟨r, hr, hi, hrr⟩
+    · obtain ⟨k, _, hk, hout⟩ := hmem
+      subst hout; subst hj; subst hrr; subst hk
+      exact ⟨[], hr⟩
+    · subst hi; subst hrr
+      exact ⟨_, hr⟩
+
+end Dos.ContentPath
